@@ -199,6 +199,43 @@ pub struct ReplayFile {
     pub plan:      Value,
 }
 
+/// What a range of runs produced, before reporting (also the exchange
+/// format between worker processes and their parent).
+#[derive(Default, Serialize, Deserialize)]
+pub struct RawBatch {
+    runs:       u64,
+    ops:        u64,
+    time:       u64,
+    nontrivial: u64,
+    digest:     u64,
+    faults:     BTreeMap<String, u64>,
+    probes:     BTreeMap<String, u64>,
+    distinct:   Vec<u64>,
+    states:     Vec<u64>,
+    viol:       Vec<(u64, Violation)>,
+    fps:        Vec<(u64, u64)>,
+}
+
+impl RawBatch {
+    fn merge(&mut self, o: RawBatch) {
+        self.runs += o.runs;
+        self.ops += o.ops;
+        self.time += o.time;
+        self.nontrivial += o.nontrivial;
+        self.digest = self.digest.wrapping_add(o.digest);
+        for (k, n) in o.faults {
+            *self.faults.entry(k).or_insert(0) += n;
+        }
+        for (k, n) in o.probes {
+            *self.probes.entry(k).or_insert(0) += n;
+        }
+        self.distinct.extend(o.distinct);
+        self.states.extend(o.states);
+        self.viol.extend(o.viol);
+        self.fps.extend(o.fps);
+    }
+}
+
 #[derive(Default)]
 struct BatchReport {
     name:        String,
@@ -229,6 +266,11 @@ pub struct Ctx {
     pub range:      Option<(u64, u64)>,
     pub isolate:    bool,
     pub no_evidence: bool,
+    /// Run batches in single-threaded worker processes instead of threads.
+    pub proc_parallel: bool,
+    child_stats:     Option<PathBuf>,
+    child_raw:       Vec<(String, RawBatch)>,
+    want_child_fps:  bool,
     /// Scale factor for run counts (VERIF_SCALE, default 1.0); used by self tests.
     pub scale:      f64,
     fp_out:         Option<PathBuf>,
@@ -307,6 +349,10 @@ impl Ctx {
             }),
             isolate: args.iter().any(|a| a == "--isolate"),
             no_evidence: args.iter().any(|a| a == "--no-evidence"),
+            proc_parallel: false,
+            child_stats: arg_value(&args, "--child-stats").map(PathBuf::from),
+            child_raw: Vec::new(),
+            want_child_fps: args.iter().any(|a| a == "--child-fps"),
             scale,
             fp_out: arg_value(&args, "--dump-fingerprints").map(PathBuf::from),
             fp_lines: Vec::new(),
@@ -354,184 +400,48 @@ impl Ctx {
             self.isolate_batch(s, count);
             return;
         }
-        let (range_lo, count) = match self.range {
+        let t0 = Instant::now();
+        let (lo, hi) = match self.range {
             Some((a, b)) => (a.min(count), b.min(count)),
             None => (0, count),
         };
-        let t0 = Instant::now();
-        let next = AtomicU64::new(range_lo);
-        let stop = AtomicBool::new(false);
-        let workers = self.workers.min((count - range_lo) as usize).max(1);
-        let tier = self.tier;
-        let seed = self.seed;
-        let property = self.property.clone();
-        let want_fp = self.fp_out.is_some();
-        let wall_cap = self.batch_wall_cap;
-        let run_timeout = self.run_timeout;
-        let root_dir = self.root.clone();
-
-        struct WorkerOut {
-            runs:       u64,
-            ops:        u64,
-            time:       u64,
-            nontrivial: u64,
-            digest:     u64,
-            faults:     BTreeMap<&'static str, u64>,
-            probes:     BTreeMap<&'static str, u64>,
-            distinct:   HashSet<u64>,
-            states:     HashSet<u64>,
-            viol:       Vec<(u64, Violation)>,
-            fps:        Vec<(u64, u64)>,
-        }
-        // watchdog slots: (start ms since t0 + 1, run index); 0 = idle
-        let slots: Vec<(AtomicU64, AtomicU64)> =
-            (0..workers).map(|_| (AtomicU64::new(0), AtomicU64::new(0))).collect();
-        let done = AtomicBool::new(false);
-        let hung: Mutex<Option<u64>> = Mutex::new(None);
-
-        let outs: Vec<WorkerOut> = std::thread::scope(|scope| {
-            // watchdog
-            scope.spawn(|| {
-                while !done.load(Ordering::Relaxed) {
-                    std::thread::sleep(Duration::from_millis(200));
-                    let now = t0.elapsed().as_millis() as u64 + 1;
-                    for (st, idx) in slots.iter() {
-                        let s0 = st.load(Ordering::Relaxed);
-                        if s0 != 0 && now.saturating_sub(s0) > run_timeout.as_millis() as u64 {
-                            let i = idx.load(Ordering::Relaxed);
-                            *hung.lock().unwrap() = Some(i);
-                            // A hung run cannot be cancelled; report and leave.
-                            let rs = run_seed(seed, &property, s.name(), i);
-                            let plan = s.generate(&mut Rng::new(rs), tier);
-                            let v = Violation::new(
-                                "termination",
-                                "termination",
-                                format!("run did not finish within {:?}", run_timeout),
-                                0,
-                            );
-                            let dir = root_dir.join("replays");
-                            let _ = std::fs::create_dir_all(&dir);
-                            let path = dir.join(format!("{}-{}-{}-hang.json", property, s.name(), i));
-                            let rf = ReplayFile {
-                                property: property.clone(),
-                                engine: String::new(),
-                                batch: s.name().to_string(),
-                                oracle: v.oracle.clone(),
-                                signature: v.signature.clone(),
-                                seed,
-                                run_index: i,
-                                detail: v.detail.clone(),
-                                step: 0,
-                                plan: serde_json::to_value(&plan).unwrap_or(Value::Null),
-                            };
-                            let _ = std::fs::write(&path, serde_json::to_string_pretty(&rf).unwrap());
-                            println!("VIOLATION property={} replay={}", property, path.display());
-                            std::process::exit(1);
-                        }
-                    }
+        let raw = if self.proc_parallel && self.range.is_none() && self.child_stats.is_none() && self.workers > 1 && count >= 64 {
+            match self.run_in_children(s, count) {
+                Some(r) => r,
+                None => {
+                    // a child died: find the run that kills the process
+                    self.isolate_batch(s, count);
+                    return;
                 }
-            });
-            let handles: Vec<_> = (0..workers)
-                .map(|w| {
-                    let next = &next;
-                    let stop = &stop;
-                    let slots = &slots;
-                    let property = &property;
-                    scope.spawn(move || {
-                        let mut out = WorkerOut {
-                            runs:       0,
-                            ops:        0,
-                            time:       0,
-                            nontrivial: 0,
-                            digest:     0,
-                            faults:     BTreeMap::new(),
-                            probes:     BTreeMap::new(),
-                            distinct:   HashSet::new(),
-                            states:     HashSet::new(),
-                            viol:       Vec::new(),
-                            fps:        Vec::new(),
-                        };
-                        loop {
-                            if stop.load(Ordering::Relaxed) {
-                                break;
-                            }
-                            let i = next.fetch_add(1, Ordering::Relaxed);
-                            if i >= count {
-                                break;
-                            }
-                            if (i & 0x3f) == 0 && t0.elapsed() > wall_cap {
-                                stop.store(true, Ordering::Relaxed);
-                            }
-                            let rs = run_seed(seed, property, s.name(), i);
-                            let mut rng = Rng::new(rs);
-                            let plan = s.generate(&mut rng, tier);
-                            slots[w].1.store(i, Ordering::Relaxed);
-                            slots[w].0.store(t0.elapsed().as_millis() as u64 + 1, Ordering::Relaxed);
-                            let mut rec = Recorder::new();
-                            let v = guarded_execute(s, &plan, &mut rec);
-                            slots[w].0.store(0, Ordering::Relaxed);
-                            out.runs += 1;
-                            out.ops += rec.ops;
-                            out.time += rec.time;
-                            let fp = rec.fingerprint();
-                            let mut mix = fp ^ i.wrapping_mul(0x9E37_79B9_7F4A_7C15);
-                            out.digest = out.digest.wrapping_add(crate::rng::splitmix64(&mut mix));
-                            if want_fp {
-                                out.fps.push((i, fp));
-                            }
-                            if rec.nontrivial {
-                                out.nontrivial += 1;
-                                out.distinct.insert(fp);
-                            }
-                            for (k, n) in rec.faults {
-                                *out.faults.entry(k).or_insert(0) += n;
-                            }
-                            for (k, n) in rec.probes {
-                                *out.probes.entry(k).or_insert(0) += n;
-                            }
-                            for sg in rec.state_sigs {
-                                out.states.insert(sg);
-                            }
-                            if let Some(v) = v {
-                                out.viol.push((i, v));
-                            }
-                        }
-                        out
-                    })
-                })
-                .collect();
-            let outs: Vec<WorkerOut> = handles.into_iter().map(|h| h.join().expect("worker")).collect();
-            done.store(true, Ordering::Relaxed);
-            outs
-        });
-
+            }
+        } else {
+            self.run_range(s, lo, hi)
+        };
+        if self.child_stats.is_some() {
+            self.child_raw.push((s.name().to_string(), raw));
+            return;
+        }
+        let seed = self.seed;
+        let tier = self.tier;
         let mut rep = BatchReport {
             name: s.name().to_string(),
             planned: count,
+            runs: raw.runs,
+            ops: raw.ops,
+            time: raw.time,
+            nontrivial: raw.nontrivial,
+            digest: raw.digest,
+            faults: raw.faults,
+            probes: raw.probes,
             ..Default::default()
         };
-        let mut viols: Vec<(u64, Violation)> = Vec::new();
-        let mut fps: Vec<(u64, u64)> = Vec::new();
-        for o in outs {
-            rep.runs += o.runs;
-            rep.ops += o.ops;
-            rep.time += o.time;
-            rep.nontrivial += o.nontrivial;
-            rep.digest = rep.digest.wrapping_add(o.digest);
-            for (k, n) in o.faults {
-                *rep.faults.entry(k.to_string()).or_insert(0) += n;
-            }
-            for (k, n) in o.probes {
-                *rep.probes.entry(k.to_string()).or_insert(0) += n;
-            }
-            self.distinct_nontrivial.extend(o.distinct);
-            self.distinct_states.extend(o.states);
-            viols.extend(o.viol);
-            fps.extend(o.fps);
-        }
-        rep.truncated = rep.runs < count;
+        self.distinct_nontrivial.extend(raw.distinct);
+        self.distinct_states.extend(raw.states);
+        let mut viols = raw.viol;
+        let mut fps = raw.fps;
+        rep.truncated = rep.runs < hi - lo;
         viols.sort_by_key(|(i, _)| *i);
-        if want_fp {
+        if self.fp_out.is_some() {
             fps.sort();
             for (i, fp) in fps {
                 self.fp_lines.push(format!("{} {} {:016x}", s.name(), i, fp));
@@ -564,6 +474,206 @@ impl Ctx {
         }
         rep.wall_s = t0.elapsed().as_secs_f64();
         self.batches.push(rep);
+    }
+
+    /// Process-level parallelism: one single-threaded child per slice of run
+    /// indices (used by engines whose code under test contends on the
+    /// process-wide address space, e.g. 32 MiB linear memories per run).
+    fn run_in_children<S: Scenario>(&mut self, s: &S, count: u64) -> Option<RawBatch> {
+        let exe = std::env::current_exe().ok()?;
+        let n = (self.workers as u64).min(count);
+        let tmp = std::env::temp_dir().join(format!("verif-{}-{}-{}", self.property, s.name(), std::process::id()));
+        let _ = std::fs::create_dir_all(&tmp);
+        let mut children = Vec::new();
+        for w in 0..n {
+            let lo = count * w / n;
+            let hi = count * (w + 1) / n;
+            let stats = tmp.join(format!("part{}.json", w));
+            let child = std::process::Command::new(&exe)
+                .args(["--property", &self.property, "--tier", self.tier.as_str(), "--seed", &self.seed.to_string()])
+                .args(["--batch", s.name(), "--range", &lo.to_string(), &hi.to_string(), "--no-evidence", "--workers", "1"])
+                .args(if self.fp_out.is_some() { vec!["--child-fps"] } else { vec![] })
+                .arg("--child-stats")
+                .arg(&stats)
+                .arg("--root")
+                .arg(&self.root)
+                .env("VERIF_NO_REPLAY_CONFIRM", "1")
+                .env("VERIF_SCALE", self.scale.to_string())
+                .stdout(std::process::Stdio::null())
+                .stderr(std::process::Stdio::inherit())
+                .spawn();
+            match child {
+                Ok(c) => children.push((c, stats)),
+                Err(e) => {
+                    self.harness_error(format!("cannot spawn worker process: {}", e));
+                    return Some(RawBatch::default());
+                }
+            }
+        }
+        let mut total = RawBatch::default();
+        let mut died = false;
+        for (mut c, stats) in children {
+            let st = c.wait();
+            match st {
+                Ok(st) if st.code() == Some(0) => {
+                    let parts: Vec<(String, RawBatch)> = std::fs::read_to_string(&stats)
+                        .ok()
+                        .and_then(|t| serde_json::from_str(&t).ok())
+                        .unwrap_or_default();
+                    for (name, r) in parts {
+                        if name == s.name() {
+                            total.merge(r);
+                        }
+                    }
+                }
+                Ok(st) if st.code() == Some(1) => {
+                    // the hang watchdog of a child reported a violation itself
+                    self.violations += 1;
+                }
+                Ok(st) if st.code() == Some(2) => self.harness_error("a worker process reported a harness error"),
+                _ => died = true,
+            }
+        }
+        let _ = std::fs::remove_dir_all(&tmp);
+        if died {
+            None
+        } else {
+            Some(total)
+        }
+    }
+
+    /// Run the indices `lo..hi` in this process on `self.workers` threads.
+    fn run_range<S: Scenario>(&mut self, s: &S, lo: u64, hi: u64) -> RawBatch {
+        let t0 = Instant::now();
+        let next = AtomicU64::new(lo);
+        let stop = AtomicBool::new(false);
+        let workers = self.workers.min((hi - lo) as usize).max(1);
+        let tier = self.tier;
+        let seed = self.seed;
+        let property = self.property.clone();
+        let want_fp = self.fp_out.is_some() || self.child_stats.is_some() && self.want_child_fps;
+        let wall_cap = self.batch_wall_cap;
+        let run_timeout = self.run_timeout;
+        let root_dir = self.root.clone();
+        let count = hi;
+
+        // watchdog slots: (start ms since t0 + 1, run index); 0 = idle
+        let slots: Vec<(AtomicU64, AtomicU64)> =
+            (0..workers).map(|_| (AtomicU64::new(0), AtomicU64::new(0))).collect();
+        let done = AtomicBool::new(false);
+
+        let outs: Vec<RawBatch> = std::thread::scope(|scope| {
+            // watchdog
+            scope.spawn(|| {
+                while !done.load(Ordering::Relaxed) {
+                    std::thread::sleep(Duration::from_millis(200));
+                    let now = t0.elapsed().as_millis() as u64 + 1;
+                    for (st, idx) in slots.iter() {
+                        let s0 = st.load(Ordering::Relaxed);
+                        if s0 != 0 && now.saturating_sub(s0) > run_timeout.as_millis() as u64 {
+                            let i = idx.load(Ordering::Relaxed);
+                            // A hung run cannot be cancelled; report and leave.
+                            let rs = run_seed(seed, &property, s.name(), i);
+                            let plan = s.generate(&mut Rng::new(rs), tier);
+                            let v = Violation::new(
+                                "termination",
+                                "termination",
+                                format!("run did not finish within {:?}", run_timeout),
+                                0,
+                            );
+                            let dir = root_dir.join("replays");
+                            let _ = std::fs::create_dir_all(&dir);
+                            let path = dir.join(format!("{}-{}-{}-hang.json", property, s.name(), i));
+                            let rf = ReplayFile {
+                                property: property.clone(),
+                                engine: String::new(),
+                                batch: s.name().to_string(),
+                                oracle: v.oracle.clone(),
+                                signature: v.signature.clone(),
+                                seed,
+                                run_index: i,
+                                detail: v.detail.clone(),
+                                step: 0,
+                                plan: serde_json::to_value(&plan).unwrap_or(Value::Null),
+                            };
+                            let _ = std::fs::write(&path, serde_json::to_string_pretty(&rf).unwrap());
+                            println!("VIOLATION property={} replay={}", property, path.display());
+                            eprintln!("VIOLATION property={} replay={} (run did not finish)", property, path.display());
+                            std::process::exit(1);
+                        }
+                    }
+                }
+            });
+            let handles: Vec<_> = (0..workers)
+                .map(|w| {
+                    let next = &next;
+                    let stop = &stop;
+                    let slots = &slots;
+                    let property = &property;
+                    scope.spawn(move || {
+                        let mut out = RawBatch::default();
+                        let mut distinct: HashSet<u64> = HashSet::new();
+                        let mut states: HashSet<u64> = HashSet::new();
+                        loop {
+                            if stop.load(Ordering::Relaxed) {
+                                break;
+                            }
+                            let i = next.fetch_add(1, Ordering::Relaxed);
+                            if i >= count {
+                                break;
+                            }
+                            if (i & 0x3f) == 0 && t0.elapsed() > wall_cap {
+                                stop.store(true, Ordering::Relaxed);
+                            }
+                            let rs = run_seed(seed, property, s.name(), i);
+                            let mut rng = Rng::new(rs);
+                            let plan = s.generate(&mut rng, tier);
+                            slots[w].1.store(i, Ordering::Relaxed);
+                            slots[w].0.store(t0.elapsed().as_millis() as u64 + 1, Ordering::Relaxed);
+                            let mut rec = Recorder::new();
+                            let v = guarded_execute(s, &plan, &mut rec);
+                            slots[w].0.store(0, Ordering::Relaxed);
+                            out.runs += 1;
+                            out.ops += rec.ops;
+                            out.time += rec.time;
+                            let fp = rec.fingerprint();
+                            let mut mix = fp ^ i.wrapping_mul(0x9E37_79B9_7F4A_7C15);
+                            out.digest = out.digest.wrapping_add(crate::rng::splitmix64(&mut mix));
+                            if want_fp {
+                                out.fps.push((i, fp));
+                            }
+                            if rec.nontrivial {
+                                out.nontrivial += 1;
+                                distinct.insert(fp);
+                            }
+                            for (k, n) in rec.faults {
+                                *out.faults.entry(k.to_string()).or_insert(0) += n;
+                            }
+                            for (k, n) in rec.probes {
+                                *out.probes.entry(k.to_string()).or_insert(0) += n;
+                            }
+                            for sg in rec.state_sigs {
+                                states.insert(sg);
+                            }
+                            if let Some(v) = v {
+                                out.viol.push((i, v));
+                            }
+                        }
+                        out.distinct = distinct.into_iter().collect();
+                        out.states = states.into_iter().collect();
+                        out
+                    })
+                })
+                .collect();
+            let outs: Vec<RawBatch> = handles.into_iter().map(|h| h.join().expect("worker")).collect();
+            done.store(true, Ordering::Relaxed);
+            outs
+        });
+        let mut total = RawBatch::default();
+        for o in outs {
+            total.merge(o);
+        }
+        total
     }
 
     /// The process died while running this batch in-process (abort, stack
@@ -636,6 +746,12 @@ impl Ctx {
     }
 
     fn report<S: Scenario>(&mut self, s: &S, index: u64, plan: &S::Plan, v: &Violation) {
+        if v.oracle == "harness" {
+            // the simulator's own self-checks (e.g. a generated module rejected by the
+            // validator) are harness errors, never violations
+            self.harness_error(format!("batch {} run {}: {}", s.name(), index, v.detail));
+            return;
+        }
         if let Some(k) = self.is_known(&v.signature) {
             let line = format!("KNOWN-FINDING: property={} {} [{}]", self.property, k.what, v.signature);
             if self.known_seen.insert(v.signature.clone()) {
@@ -757,6 +873,13 @@ impl Ctx {
                 std::process::exit(2);
             }
             std::process::exit(if self.violations > 0 { 1 } else { 0 });
+        }
+        if let Some(p) = &self.child_stats {
+            let _ = std::fs::write(p, serde_json::to_string(&self.child_raw).unwrap_or_default());
+            for e in &self.harness_errors {
+                eprintln!("HARNESS-ERROR: {}", e);
+            }
+            std::process::exit(if self.harness_errors.is_empty() { 0 } else { 2 });
         }
         if let Some(p) = &self.fp_out {
             let _ = std::fs::write(p, self.fp_lines.join("\n") + "\n");
